@@ -8,6 +8,7 @@ import (
 	"fmt"
 	"os"
 	"path/filepath"
+	"time"
 
 	"verif/sim/core"
 
@@ -80,6 +81,8 @@ func main() {
 			fmt.Fprintln(os.Stderr, "scenario does not decode:", err)
 			os.Exit(2)
 		}
+		core.StartWatchdog("", core.HangCPULimit(8*time.Second))
+		core.WatchdogArm(raw)
 		if *prelude != "" {
 			pb, err := os.ReadFile(*prelude)
 			if err != nil {
